@@ -52,12 +52,12 @@ type FuncContract struct {
 	Asserts  []PointAssert
 	Trusted  bool
 	Inline   bool
+	Calls    []string        // parameters holding functions the callee may invoke: their write sets are added at call sites
 	Reveal   map[string]bool // opaque spec functions unfolded while verifying this function
-	NoPanic  bool // claim: no reachable panic instruction / bounds failure
-	Safety   bool // generate bounds/nil/div obligations
+	NoPanic  bool            // claim: no reachable panic instruction / bounds failure
+	Safety   bool            // generate bounds/nil/div obligations
 	File     string
 	Line     int
-	Calls    map[string]string // "callee#ord" -> contract variant to use (unused)
 }
 
 type SpecParam struct {
@@ -72,23 +72,24 @@ type SpecFunc struct {
 	Ret    string
 	Body   *Expr
 	Text   string
+	Reads  []string // declared heap footprint of an uninterpreted function (heap keys it depends on)
 	Opaque bool     // used as an uninterpreted function of its arguments and heap footprint unless revealed
 	foot   []string // heap keys the body reads (computed on demand)
 	footOK bool
 }
 
 type Axiom struct {
-	Pkg   string
-	Name  string
-	E     *Expr
-	Text  string
-	Lemma bool
-	Inv   bool // global state invariant (established by package initialisation, stability checked)
-	Props []string
-	Uses  []string // axioms / lemmas to assume when proving this lemma
+	Pkg    string
+	Name   string
+	E      *Expr
+	Text   string
+	Lemma  bool
+	Inv    bool // global state invariant (established by package initialisation, stability checked)
+	Props  []string
+	Uses   []string // axioms / lemmas to assume when proving this lemma
 	Reveal []string
-	File  string
-	Line  int
+	File   string
+	Line   int
 }
 
 type GhostVar struct {
@@ -114,7 +115,7 @@ func newContractSet() *ContractSet {
 	return &ContractSet{Funcs: map[string]*FuncContract{}, Specs: map[string]*SpecFunc{}, Axioms: map[string]*Axiom{}, Ghosts: map[string]*GhostVar{}}
 }
 
-var keywordRe = regexp.MustCompile(`^(func|property|requires|ensures|modifies|loop|assert|trusted|inline|nopanic|safety|spec|axiom|lemma|invariant|ghost|use|reveal|package)\b`)
+var keywordRe = regexp.MustCompile(`^(func|property|requires|ensures|modifies|loop|assert|trusted|inline|nopanic|safety|spec|axiom|lemma|invariant|ghost|use|reveal|calls|package)\b`)
 var labelRe = regexp.MustCompile(`^\[([A-Za-z0-9_.<>=%+\-]+)\]\s*(.*)$`)
 
 func canonFuncName(pkg, decl string) string {
@@ -303,6 +304,11 @@ func (cs *ContractSet) parseFile(path string, defaultPkg string) error {
 			}
 			cur.Trusted = true
 			cs.TrustedList = append(cs.TrustedList, cur.Key+" ("+it.text+")")
+		case "calls":
+			if cur == nil {
+				return fmt.Errorf("%s:%d: calls outside func", path, it.line)
+			}
+			cur.Calls = append(cur.Calls, strings.Fields(strings.ReplaceAll(it.text, ",", " "))...)
 		case "inline":
 			cur.Inline = true
 		case "nopanic":
@@ -316,6 +322,10 @@ func (cs *ContractSet) parseFile(path string, defaultPkg string) error {
 				return fmt.Errorf("%s:%d: bad spec declaration: %s", path, it.line, it.text)
 			}
 			sf := &SpecFunc{Pkg: pkg, Name: m[2], Ret: strings.TrimSpace(m[4]), Text: it.text, Opaque: m[1] == "opaque"}
+			if i := strings.Index(sf.Ret, " reads "); i >= 0 {
+				sf.Reads = strings.Fields(sf.Ret[i+7:])
+				sf.Ret = strings.TrimSpace(sf.Ret[:i])
+			}
 			if strings.TrimSpace(m[3]) != "" {
 				for _, p := range strings.Split(m[3], ",") {
 					f := strings.Fields(strings.TrimSpace(p))
